@@ -63,3 +63,36 @@ def balanceCorrectionFactors (f1 f2 : Nat) (t : Modulus) : R (Nat × Nat × Nat)
     pure (f, e1, e2)
 
 end HC
+
+namespace HC
+
+/-- `mod_switch_scale_to_next_internal`: divide every polynomial by the last prime (scheme-specific rounding),
+    drop the last component; BGV multiplies the correction factor by q_last^{-1} mod t.  The CKKS scale is handled
+    by the caller (a float). -/
+def modSwitchScaleNext (l : Level) (ct : Ct) : R Ct := do
+  if l.size < 2 then .error .refused else
+  match l.scheme with
+  | .bfv => if ct.ntt then .error .refused else do
+      let ps ← ct.polys.toList.mapM (fun p => do let o ← l.tool.divideAndRoundQLast p; pure (o.extract 0 (l.size - 1)))
+      pure { ct with polys := ps.toArray }
+  | .ckks => if !ct.ntt then .error .refused else do
+      let ps ← ct.polys.toList.mapM (fun p => do let o ← l.tool.divideAndRoundQLastNtt l.tables p; pure (o.extract 0 (l.size - 1)))
+      pure { ct with polys := ps.toArray }
+  | .bgv => if !ct.ntt then .error .refused else do
+      let ps ← ct.polys.toList.mapM (fun p => do let o ← l.tool.modTAndDivideQLastNtt l.tables p; pure (o.extract 0 (l.size - 1)))
+      let cf ← mulMod ct.cf l.tool.invQLastModT l.t
+      pure { ct with polys := ps.toArray, cf := cf }
+
+/-- `mod_switch_drop_to_next_internal` (CKKS `mod_switch_to_next`): drop the last RNS component -/
+def modSwitchDropNext (l : Level) (ct : Ct) : R Ct :=
+  if l.size < 2 then .error .refused
+  else if l.scheme = .ckks ∧ !ct.ntt then .error .refused
+  else pure { ct with polys := ct.polys.map (fun p => p.extract 0 (l.size - 1)) }
+
+/-- the level bookkeeping of `mod_switch_to` / `rescale_to`: chain indices decrease by one per step until the target;
+    a target above the current level is refused.  Structural recursion on the distance: termination is by construction. -/
+def switchSteps (cur tgt : Nat) : R (List Nat) :=
+  if cur < tgt then .error .refused
+  else pure ((List.range (cur - tgt)).map (fun i => cur - 1 - i))
+
+end HC
